@@ -195,6 +195,16 @@ func init() {
 					Run:  func(c *fw.Ctx, i int64) { c04Run(c, kind, stringByIndex(al, i)) },
 					Repr: func(i int64) string { return fmt.Sprintf("%s tokenizer, input %q", kind, stringByIndex(al, i)) }})
 			}
+			for _, kind := range tokKindsCustom {
+				kind := kind
+				cl := 5
+				if tier == "thorough" {
+					cl = 6
+				}
+				sp = append(sp, fw.Space{Name: kind, N: countStrings(len(customAlphabet), cl),
+					Run:  func(c *fw.Ctx, i int64) { c04Run(c, kind, stringByIndex(customAlphabet, i)) },
+					Repr: func(i int64) string { return fmt.Sprintf("%s tokenizer, input %q", kind, stringByIndex(customAlphabet, i)) }})
+			}
 			// sequences of whole lexemes (keywords in several letter cases, numbers, strings, comments, symbols)
 			// written next to each other without any separator
 			lexLen := 2
